@@ -633,7 +633,7 @@ fn c18_gen(t: &mut Tape) -> (usize, Vec<Op18>) {
     let mut ops = Vec::new();
     while t.next_slot() {
         let op = match t.weighted(&[6, 1, 4, 1, 1, 2, 4, 2, 1]) {
-            0 => Op18::Append(gen_rec(t, false)),
+            0 => Op18::Append(gen_rec(t, true)),
             1 => Op18::FlushWriter,
             2 => Op18::Sync,
             3 => Op18::SetLen(t.usize_below(64)),
@@ -661,7 +661,7 @@ struct MRec {
 fn c18_run<const H: usize>(ops: &[Op18], env: &Env, out: &mut CaseOut, rendered: &mut Vec<Value>) {
     let scratch = Scratch::new("c18");
     let path = scratch.path().join("seg");
-    let seg_size = 512 * 1024;
+    let seg_size = 2 * 1024 * 1024;
     let start = 32u64;
     let mut w = Writer::<H>::create(&path, seg_size, start).unwrap();
     let flushed = w.flushed_offset();
@@ -910,11 +910,11 @@ impl Check for C18 {
     }
     fn plan(&self, tier: Tier) -> Plan {
         Plan {
-            cases: if tier == Tier::Quick { 24_000 } else { 240_000 },
+            cases: if tier == Tier::Quick { 240_000 } else { 2_400_000 },
             max_tape: 10,
             min_slots: 5,
             max_slots: 41,
-            shard_cases: if tier == Tier::Quick { 1500 } else { 5000 },
+            shard_cases: if tier == Tier::Quick { 7500 } else { 25_000 },
             max_shrink_iters: 3000,
             ..Plan::default()
         }
